@@ -40,7 +40,7 @@ func Verif_C12_HTTP() {
 		HandleServices(mux.HandleFunc, base, reg, nil, nil)
 		handler = mux
 	}
-	tr := &verifTransport{handler: handler, remoteAddr: "1.2.3.4:5"}
+	tr := &verifTransport{handler: handler, remoteAddr: "1.2.3.4:5", inline: true}
 	ch := &Channel{Transport: tr, BaseURL: verifURL("http", "h", base)}
 
 	err := ch.Invoke(context.Background(), name, &verifMsg{}, &verifMsg{})
